@@ -57,20 +57,23 @@ Proof.
   match goal with |- bind ?F _ = _ -> _ => destruct F as [g|]; [|discriminate] end. cbn [bind]. intros H. injection H as <-. reflexivity.
 Qed.
 
+Lemma sel_id s pk s1 r : select_decryptor C s pk = (s1, r) -> qid s1 = qid s.
+Proof.
+  unfold select_decryptor. intros H.
+  destruct (qp_type pk);
+    try (destruct (qs_initial s); injection H as <- _; reflexivity);
+    try (destruct (qs_handshake s), (qs_cipher s); injection H as <- _; reflexivity);
+    try (destruct (qs_early s) as [[k i]|], (qs_cipher s); injection H as <- _; reflexivity).
+  destruct (check_key_epoch C s (qp_key_phase pk) (qp_isserver pk)) as [s0|] eqn:Ec.
+  - pose proof (cke_id _ _ _ _ Ec) as H0. destruct (qs_app s0), (qs_cipher s0); try destruct (nth_error _ _); injection H as <- _; exact H0.
+  - injection H as <- _. reflexivity.
+Qed.
+
 Lemma dp_id s pk s' : decrypt_packet C keylog ftable s pk = Ok s' -> qid s' = qid s.
 Proof.
-  unfold decrypt_packet.
-  match goal with |- bind ?F _ = _ -> _ => destruct F as [[[s1 ci] [key iv]]|] eqn:E; [|discriminate] end. cbn [bind].
-  assert (H1 : qid s1 = qid s).
-  { destruct (qp_type pk).
-    - destruct (qs_initial s); [|discriminate]. now injection E as <- _ _.
-    - destruct (qs_early s) as [[k i]|]; [|discriminate]. destruct (qs_cipher s); [|discriminate]. now injection E as <- _ _.
-    - destruct (qs_handshake s); [|discriminate]. destruct (qs_cipher s); [|discriminate]. now injection E as <- _ _.
-    - destruct (qs_early s) as [[k i]|]; [|discriminate]. destruct (qs_cipher s); [|discriminate]. now injection E as <- _ _.
-    - destruct (qs_early s) as [[k i]|]; [|discriminate]. destruct (qs_cipher s); [|discriminate]. now injection E as <- _ _.
-    - destruct (check_key_epoch C s (qp_key_phase pk) (qp_isserver pk)) as [s0|] eqn:Ec; [|discriminate]. cbn [bind] in E.
-      pose proof (cke_id _ _ _ _ Ec) as H0. destruct (qs_app s0); [|discriminate]. destruct (qs_cipher s0); [|discriminate].
-      destruct (nth_error _ _); [|discriminate]. injection E as <- _ _. exact H0. }
+  unfold decrypt_packet. destruct (select_decryptor C s pk) as [s1 r] eqn:E.
+  pose proof (sel_id _ _ _ _ E) as H1.
+  destruct r as [[ci [key iv]]|]; [|intros H; injection H as <-; exact H1].
   destruct (get_full_packet_number _ _ _ _) as [[pn pns]|]; [|intros H; injection H as <-; exact H1].
   match goal with |- match ?F with Ok _ => _ | Exn _ => _ end = _ -> _ => destruct F as [payload|]; [|intros H; injection H as <-; exact H1] end.
   destruct (parse_frames ftable payload) as [fs|]; intros H; injection H as <-.
